@@ -69,7 +69,7 @@ def path_of(t):
         if h == 'field':
             out.append(t[2])
             t = t[1]
-        elif h in ('idx', 'get'):
+        elif h in ('idx', 'get', 'index'):
             out.append('[]')
             t = t[1]
         elif h in ('some_of', 'values', 'keys', 'elem', 'hashmap'):
